@@ -65,6 +65,9 @@ type Peer struct {
 
 	Sig, Enc *tk.Leaf // the puppet's own key pairs (may be nil)
 
+	HoldHS bool   // SendHS keeps the message back (to be packed into one record with the next one)
+	heldHS []byte // handshake messages kept back
+
 	Vers       uint16
 	Suite      uint16
 	CR, SR     []byte
@@ -236,10 +239,20 @@ func (p *Peer) hsFrame(typ byte, body []byte) []byte {
 }
 
 // SendHS sends a handshake message; hashed says whether it enters the transcript.
+// While HoldHS is set the message is kept back; the next message sent with HoldHS clear goes out in
+// one record together with everything kept back (several handshake messages packed in one record).
 func (p *Peer) SendHS(typ byte, body []byte, hashed bool) error {
 	m := p.hsMsg(typ, body)
 	if hashed {
 		p.Transcript = append(p.Transcript, m...)
+	}
+	if p.HoldHS {
+		p.heldHS = append(p.heldHS, m...)
+		return nil
+	}
+	if len(p.heldHS) > 0 {
+		m = append(p.heldHS, m...)
+		p.heldHS = nil
 	}
 	return p.SendRecord(RecHS, m)
 }
